@@ -2,7 +2,15 @@
 namespaces; Option.set."""
 import copy
 import itertools
+import json
+import os
+import pickle
+import random
 import re
+import subprocess
+import sys
+import tempfile
+import threading
 
 import coreprop as cp
 import core
@@ -143,6 +151,127 @@ def expected(world_scn, key, dflt, dom, o):
     return ("ok", val)
 
 
+# --- observing one object directly (clones, alternative spellings, live dictionaries) ---
+
+METHODS = ("evaluate", "validate", "keys", "explain")
+
+
+def call_res(obj, m, po):
+    """the result part of an observation line (same vocabulary as core.run_impl) of obj.<m>(po); po is a PYTHON dictionary and is
+    handed over as is (the very same object when the caller keeps it alive between calls)"""
+    try:
+        if m == "evaluate":
+            r = "ok:" + core.show(core.force(obj.evaluate(po)))
+        elif m == "validate":
+            obj.validate(po)
+            r = "ok:()"
+        elif m == "keys":
+            r = "ok:" + core.show_keys(obj.keys(po))
+        else:
+            r = "ok:" + core.show_keys(obj.explain(po))
+    except RecursionError:
+        r = "err:fuel:F"
+    except Exception as exc:  # noqa
+        c, ee = core.classify(exc)
+        r = f"err:{c}:{'T' if ee else 'F'}"
+    return core.canon_names(r)
+
+
+def method_res(obj, m, o):
+    return call_res(obj, m, core.py_json(o))
+
+
+def build_one(base, e):
+    w = core.World(base["ftable"])
+    b = core.Builder(w, base["env"])
+    return b.build(e), b
+
+
+# module-level (hence picklable by reference) user functions equivalent to the World closures 100 / 101 of FT
+def pk_factory():
+    return 7
+
+
+def pk_pred(v):
+    return any(core._eq(v, x) for x in (0, 1, None, "", "t", 7, 8))
+
+
+def twin_option(base, key, dn, dflt, domn, dom):
+    """the same Option spelled through the other public keywords: default_factory=<function> instead of a default that is a function
+    application, a bare callable as the domain instead of a wrapped one; every user function is a module-level one, so that the object
+    can be pickled.  None when the combination has no such spelling."""
+    from labrea import Option
+    if dn == "dataset" or (dn != "factory" and domn != "predicate"):
+        return None
+    _, b = build_one(base, ("value", ("j", 0)))
+    kw = {}
+    if dn == "factory":
+        kw["default_factory"] = pk_factory
+    elif dflt is not None:
+        kw["default"] = b.build(dflt)
+    if domn == "predicate":
+        kw["domain"] = pk_pred
+    elif dom is not None:
+        kw["domain"] = b.build(dom)
+    return Option(core.key_text(key), **kw)
+
+
+def _via_pickle(proto):
+    return lambda x: pickle.loads(pickle.dumps(x, proto))
+
+
+CLONERS = [("copy.copy", copy.copy), ("copy.deepcopy", copy.deepcopy),
+           ("pickle protocol 0", _via_pickle(0)), ("pickle protocol 2", _via_pickle(2)), ("pickle highest protocol", _via_pickle(pickle.HIGHEST_PROTOCOL)),
+           ("copy.deepcopy of an unpickled copy", lambda x: copy.deepcopy(_via_pickle(pickle.HIGHEST_PROTOCOL)(x))),
+           ("unpickled twice", lambda x: _via_pickle(pickle.HIGHEST_PROTOCOL)(_via_pickle(2)(x)))]
+
+
+def clones_of(obj, stats=None):
+    """(how, clone) for every way of copying an object that works on it (a harness closure inside cannot be pickled: skipped, counted)"""
+    out = []
+    for how, f in CLONERS:
+        try:
+            out.append((how, f(obj)))
+        except Exception:  # noqa
+            if stats is not None:
+                stats["not-clonable:" + how.split(" ")[0]] = stats.get("not-clonable:" + how.split(" ")[0], 0) + 1
+    return out
+
+
+def clone_by_name(obj, how):
+    return dict(CLONERS)[how](obj)
+
+
+def sync_inplace(live, target):
+    """make the dictionary OBJECT `live` equal to `target` by in-place updates (sections and lists that exist on both sides keep their
+    identity): what a caller does who owns one options dictionary and edits it between two calls"""
+    for k in list(live):
+        if k not in target:
+            del live[k]
+    for k, v in target.items():
+        cur = live.get(k, sync_inplace)
+        if type(v) is dict and type(cur) is dict:
+            sync_inplace(cur, v)
+        elif type(v) is list and type(cur) is list:
+            cur[:] = copy.deepcopy(v)
+        else:
+            live[k] = copy.deepcopy(v)
+
+
+def equality_groups(pdicts):
+    """indices grouped by Python equality of the dictionaries ({'A': 0} == {'A': False}, {'A': 1} == {'A': True}): members of a group
+    are different dictionaries that a comparison by == cannot tell apart"""
+    groups = []
+    for i, d in enumerate(pdicts):
+        for g in groups:
+            if pdicts[g[0]] == d:
+                g.append(i)
+                break
+        else:
+            groups.append([i])
+    return groups
+
+
 def check_option(scn_base, key, dflt, dom, o, violations, stats):
     e = ("option", key, dflt, dom)
     scn = dict(scn_base, exprs=[e], ops=[("evaluate", 0, True, False, o)])
@@ -181,12 +310,123 @@ def check_option(scn_base, key, dflt, dom, o, violations, stats):
     return scn, res
 
 
+def live_history(base, e, dicts, fresh, rng, violations, counters, quick=False):
+    """ONE long-lived Option object, ONE long-lived options dictionary object edited in place between the calls, every method; the
+    dictionaries that compare equal although they differ ({K: 0} / {K: False}, {K: 1} / {K: True}) come next to one another (A, A', A).
+    Each answer must be the one a fresh object gives under a fresh dictionary."""
+    pd = [core.py_json(o) for o in dicts]
+    groups = equality_groups(pd)
+    rng.shuffle(groups)
+    order = []
+    for g in groups:
+        order += g
+        if len(g) > 1:
+            order.append(g[0])
+    obj, _ = build_one(base, e)
+    live, fresh_m = {}, {}
+    in_group = {i for g in groups if len(g) > 1 for i in g}
+    for pos, i in enumerate(order):
+        sync_inplace(live, pd[i])
+        # quick tier: evaluate at every step, the other methods at the steps inside a group of equal dictionaries and at a random third
+        methods = METHODS if (not quick or i in in_group or rng.random() < 0.34) else METHODS[:1]
+        for m in methods:
+            if (i, m) not in fresh_m:
+                fresh_m[(i, m)] = fresh[i] if m == "evaluate" else method_res(build_one(base, e)[0], m, dicts[i])
+            got = call_res(obj, m, live)
+            counters["live-dictionary calls"] = counters.get("live-dictionary calls", 0) + 1
+            if got != fresh_m[(i, m)]:
+                hist = dict(base, exprs=[e], ops=[(mm, 0, False, False, dicts[j]) for j in order[:pos + 1] for mm in METHODS])
+                hist["ops"] = hist["ops"][:len(hist["ops"]) - 4 + METHODS.index(m) + 1]
+                violations.append(dict(desc=f"Option.{m}: one long-lived Option object called with one options dictionary object that its owner "
+                                            "edits in place between the calls (equal-but-different dictionaries in a row) answers differently "
+                                            "from a fresh Option under a fresh dictionary", position=pos, method=m, got=got, fresh=fresh_m[(i, m)],
+                                       expr=repr(e), options=repr(dicts[i]), previous=repr(dicts[order[pos - 1]]) if pos else None,
+                                       finding=None, live_scenario=cp.dump_scn(hist)))
+                return
+
+
+def live_replay(scn):
+    e = scn["exprs"][0]
+    base = dict(ftable=scn["ftable"], env=scn["env"])
+    obj, _ = build_one(base, e)
+    live, diffs = {}, []
+    for j, op in enumerate(scn["ops"]):
+        sync_inplace(live, core.py_json(op[4]))
+        got = call_res(obj, op[0], live)
+        want = method_res(build_one(base, e)[0], op[0], op[4])
+        if got != want:
+            diffs.append(dict(position=j, method=op[0], long_lived=got, fresh=want, options=repr(op[4])))
+    return diffs
+
+
+def subjects_of(base, key, dn, dflt, domn, dom, e):
+    out = [("as built", build_one(base, e)[0])]
+    tw = twin_option(base, key, dn, dflt, domn, dom)
+    if tw is not None:
+        out.append(("spelled with default_factory= / a bare callable domain (picklable user functions)", tw))
+    return out
+
+
+def clone_checks(base, key, dn, dflt, domn, dom, e, dicts, fresh, sample, violations, counters):
+    """an Option that went through copy.copy / copy.deepcopy / pickle (every protocol; before and after it was used) must resolve
+    exactly like the original, i.e. like a fresh Option, under every dictionary: evaluate against the oracle-checked answers, the other
+    methods against the original object"""
+    for label, obj in subjects_of(base, key, dn, dflt, domn, dom, e):
+        cl = ([("not copied", obj)] if label != "as built" else []) + clones_of(obj, counters)
+        own = {(m, i): method_res(obj, m, dicts[i]) for i in sample for m in METHODS[1:]}      # (this also uses the original)
+        cl += [(how + ", taken after the Option was used", c) for how, c in clones_of(obj)[-(1 if len(sample) < len(dicts) else 3):]]
+        for how, c in cl:
+            bad = None
+            for i in sample:
+                counters["clone calls"] = counters.get("clone calls", 0) + 4
+                got = method_res(c, "evaluate", dicts[i])
+                if got != fresh[i]:
+                    bad = ("evaluate", i, got, fresh[i])
+                    break
+                for m in METHODS[1:]:
+                    a, b_ = method_res(c, m, dicts[i]), own[(m, i)]
+                    if a != b_:
+                        bad = (m, i, a, b_)
+                        break
+                if bad:
+                    break
+            if bad:
+                m, i, got, want = bad
+                violations.append(dict(desc=f"Option.{m}: an Option that went through [{how}] does not resolve like the original", subject=label,
+                                       clone=how, method=m, got=got, original=want, expr=repr(e), options=repr(dicts[i]), finding=None,
+                                       clone_case=[dn, domn], scenario_repr=cp.dump_scn(dict(base, exprs=[e], ops=[(m, 0, False, False, dicts[i])]))))
+                break          # one report per subject
+
+
+def clone_replay(payload):
+    scn = cp.load_scn(payload["scenario_repr"])
+    e, op = scn["exprs"][0], scn["ops"][0]
+    base = dict(ftable=scn["ftable"], env=scn["env"])
+    dn, domn = payload["clone_case"]
+    dflt, dom = dict(DEFAULTS)[dn], dict(DOMAINS)[domn]
+    how = payload["clone"].split(", taken after")[0]
+    diffs = []
+    for label, obj in subjects_of(base, e[1], dn, dflt, domn, dom, e):
+        if label != payload["subject"]:
+            continue
+        if "taken after" in payload["clone"]:
+            method_res(obj, "evaluate", op[4])
+        c = obj if how == "not copied" else clone_by_name(obj, how)
+        for m in METHODS:
+            got = method_res(c, m, op[4])
+            want = method_res(build_one(base, e)[0], m, op[4])
+            if got != want:
+                diffs.append(dict(method=m, clone=got, fresh_original=want))
+    return diffs
+
+
 def exhaustive_options(ctx):
     """key universe x values x default forms x domain forms"""
     rng = ctx.rng
     violations, stats, corr = [], {}, []
     base = dict(ftable=FT, env=ENV)
     n = 0
+    counters = stats.setdefault("extended", {})
     vals = FALSY + TRUTHY + TEMPL + TEMPLC
     combos = list(itertools.product(KEYS, DEFAULTS, DOMAINS))
     if ctx.quick:
@@ -222,10 +462,38 @@ def exhaustive_options(ctx):
                                        fresh=fresh[i], expr=repr(e), options=repr(dicts[i]), finding=None,
                                        scenario_repr=cp.dump_scn(dict(hist, ops=hist["ops"][:pos + 1]))))
                 break
+        live_history(base, e, dicts, fresh, rng, violations, counters, ctx.quick)
+        idx = list(range(len(dicts)))
+        clone_checks(base, key, dn, dflt, domn, dom, e, dicts, fresh, idx if not ctx.quick else sorted(rng.sample(idx, min(3, len(idx)))),
+                     violations, counters)
         sample = dicts if not ctx.quick else rng.sample(dicts, min(10, len(dicts)))
         ops = [(m, 0, False, False, o) for o in sample for m in ("evaluate", "validate", "keys", "explain")]
-        corr.append(dict(base, exprs=[e], ops=ops))
+        corr.append(dict(base, exprs=[e], ops=ops, c04_variant=True))
     return violations, stats, corr, n
+
+
+def variant_correspondence(scns, models, mism):
+    """the model has neither object identity nor dictionary identity: a copied / unpickled Option called with one dictionary object that
+    is edited in place between the calls is the SAME history of (method, dictionary value) for it.  The implementation run that way is
+    compared with the model's lines of the plain history."""
+    n = 0
+    for scn, ml in zip(scns, models):
+        if not scn.get("c04_variant") or len(ml) != len(scn["ops"]):
+            continue
+        obj, _ = build_one(scn, scn["exprs"][0])
+        cl = clones_of(obj)
+        how, c = cl[-1] if cl else ("not copied", obj)
+        live, lines = {}, []
+        for (m, _i, _cc, _lc, o), b in zip(scn["ops"], ml):
+            sync_inplace(live, core.py_json(o))
+            lines.append(call_res(c, m, live) + "|" + " ".join(cp.split(cp.strip_ghost(b))[1]))      # results compared, events taken over
+            n += 1
+        if not cp.agrees(lines, ml, scn):
+            j = next(k for k in range(len(lines)) if not cp.agrees(lines[:k + 1], ml[:k + 1], scn))
+            mism.append(dict(where=f"Model/Eval.v vs labrea: Option after [{how}] called with one dictionary object edited in place",
+                             op_index=j, op=repr(scn["ops"][j]), impl=cp.split(lines[j])[0], model=cp.split(cp.strip_ghost(ml[j]))[0],
+                             scenario_repr=cp.dump_scn(scn)))
+    return n
 
 
 def namespace_checks(violations):
@@ -248,15 +516,23 @@ def namespace_checks(violations):
             P: str = ""
             N0: object = None
             TG: list = []
+            # templated string defaults through every spelling a namespace offers
+            T1 = Option.auto("{NS.C}-y")
+            T2 = Option.auto(default="{NS.B}/z", doc="templated") >> str.upper
+            T3 = "{NS.A}.{NS.C}"
+            T4: str = "\\{{NS.C}\\}"
+            T5 = Option.auto("{NS.C}", domain=["5", 5, 6])
 
             class SUB:
                 G = Option("G", default=1, domain=[1, 2])
                 H: str
                 I = "lit"
+                K = Option.auto("{NS.SUB.I}!{NS.C}")
 
             @Option.namespace("RENAMED")
             class Other:
                 J = 10
+                L = Option.auto(default="{NS.RENAMED.J}0", domain=["100", "00"])
         return NS
     NS = mk()
     pairs = [
@@ -275,10 +551,20 @@ def namespace_checks(violations):
         (NS.SUB.H, Option("NS.SUB.H"), "NS.SUB.H"),
         (NS.SUB.I, Option("NS.SUB.I", default="lit"), "NS.SUB.I"),
         (NS.Other.J, Option("NS.RENAMED.J", default=10), "NS.RENAMED.J"),
+        (NS.T1, Option("NS.T1", default="{NS.C}-y"), "NS.T1"),
+        (NS.T2, Option("NS.T2", default="{NS.B}/z") >> str.upper, "NS.T2"),
+        (NS.T3, Option("NS.T3", default="{NS.A}.{NS.C}"), "NS.T3"),
+        (NS.T4, Option("NS.T4", default="\\{{NS.C}\\}"), "NS.T4"),
+        (NS.T5, Option("NS.T5", default="{NS.C}", domain=["5", 5, 6]), "NS.T5"),
+        (NS.SUB.K, Option("NS.SUB.K", default="{NS.SUB.I}!{NS.C}"), "NS.SUB.K"),
+        (NS.Other.L, Option("NS.RENAMED.L", default="{NS.RENAMED.J}0", domain=["100", "00"]), "NS.RENAMED.L"),
+        (NS["T1"], Option("NS.T1", default="{NS.C}-y"), "NS.T1 (item access)"),
     ]
     dicts = [{}, {"NS": {}}, {"NS": {"A": 2, "B": 0, "C": None, "D": "", "E": 4, "F": False}},
              {"NS": {"A": 7, "E": 3, "SUB": {"G": 9}}}, {"NS": {"SUB": {"G": 2, "H": "h", "I": 0}, "RENAMED": {"J": 0}}},
-             {"NS": {"C": 6, "D": "{NS.A}"}}, {"NS": {"F": "{NS.MISSING}"}}, {"NS": 5}, {"NS": {"SUB": 3}}]
+             {"NS": {"C": 6, "D": "{NS.A}"}}, {"NS": {"F": "{NS.MISSING}"}}, {"NS": 5}, {"NS": {"SUB": 3}},
+             {"NS": {"B": "b", "C": "{NS.B}", "T1": "{NS.A}", "SUB": {"I": 0}, "RENAMED": {"J": 1}}},
+             {"NS": {"T2": 0, "T3": "", "T4": None, "T5": 7, "SUB": {"K": False}, "RENAMED": {"L": "00"}}}]
 
     def obs(x, m, o):
         try:
@@ -288,13 +574,15 @@ def namespace_checks(violations):
             c, ee = core.classify(e) if True else ("?", False)
             return ("err", c.split("(")[0] if not c.startswith("key") else c, ee)
     for member, ref, name in pairs:
-        for o in dicts:
-            for m in ("evaluate", "validate", "keys", "explain"):
-                n += 1
-                a, b = obs(member, m, o), obs(ref, m, o)
-                if a != b:
-                    violations.append(dict(desc=f"namespace member {name} differs from the fully-qualified Option on {m}",
-                                           options=repr(o), member=repr(a), qualified=repr(b), finding=None, namespace_case=name))
+        # the member as handed out, and the member after copy.copy / copy.deepcopy / pickle (where it can be copied at all)
+        for how, mem in [("", member)] + [(" after " + h, c) for h, c in clones_of(member)]:
+            for o in dicts:
+                for m in ("evaluate", "validate", "keys", "explain"):
+                    n += 1
+                    a, b = obs(mem, m, o), obs(ref, m, o)
+                    if a != b:
+                        violations.append(dict(desc=f"namespace member {name}{how} differs from the fully-qualified Option on {m}",
+                                               options=repr(o), member=repr(a), qualified=repr(b), finding=None, namespace_case=name))
     return n
 
 
@@ -356,6 +644,109 @@ def set_checks(ctx, violations):
     return n, coq_cases
 
 
+# --- the same battery in other interpreters (flags / environment variables that change how Python compiles and runs the library) ---
+
+INTERPRETERS = [
+    # label, interpreter flags, environment, run the battery in a worker thread
+    ("python -O", ["-O"], {}, False),
+    ("python -OO", ["-OO"], {}, False),
+    ("PYTHONOPTIMIZE=1 in the environment", [], {"PYTHONOPTIMIZE": "1"}, False),
+    ("python -X dev", ["-X", "dev"], {}, False),
+    ("a worker thread of a plain interpreter", [], {}, True),
+]
+CHILD_MARK = "@@C04-CHILD@@"
+
+
+class _ChildCtx:
+    def __init__(self, seed, quick):
+        self.seed, self.quick, self.rng = seed, quick, random.Random(seed)
+
+
+def _child_env(extra):
+    keep = ("PYTHONPATH", "PYTHONHASHSEED", "PYTHONDONTWRITEBYTECODE", "LABREA_VERIF", "VERIF_REPO", "PATH", "HOME", "LANG", "LC_ALL", "TMPDIR")
+    env = {k: v for k, v in os.environ.items() if k in keep}
+    env.update(extra)
+    return env
+
+
+def _spawn(flags, extra_env, request):
+    cmd = [sys.executable, *flags, "-W", "ignore", "-c", "import props.c04 as m; m.child_main()"]
+    # output goes to temporary files: a child that reports many failures must not block on a full pipe
+    fout, ferr = tempfile.TemporaryFile("w+"), tempfile.TemporaryFile("w+")
+    p = subprocess.Popen(cmd, stdin=subprocess.PIPE, stdout=fout, stderr=ferr, text=True, env=_child_env(extra_env), cwd=lib.ROOT)
+    p.files = (fout, ferr)
+    p.stdin.write(json.dumps(request))
+    p.stdin.close()
+    return p
+
+
+def _collect(p, timeout):
+    try:
+        p.wait(timeout=timeout)
+    except subprocess.TimeoutExpired:
+        p.kill()
+        return None, "timeout"
+    fout, ferr = p.files
+    fout.seek(0)
+    ferr.seek(0)
+    out, err = fout.read(), ferr.read()
+    fout.close()
+    ferr.close()
+    for line in out.splitlines():
+        if line.startswith(CHILD_MARK):
+            return json.loads(line[len(CHILD_MARK):]), err[-1500:]
+    return None, (err or out)[-1500:]
+
+
+def child_main():
+    """entry point of a child interpreter: the whole implementation-side battery of this module (oracle, long-lived objects, copies,
+    namespaces, Option.set) - or the replay of one reported input - in THIS interpreter; no Coq, no grandchildren"""
+    req = json.load(sys.stdin)
+    out = {}
+
+    def work():
+        if "replay" in req:
+            still, detail = replay(None, req["replay"])
+            out.update(still=still, detail=detail)
+            return
+        ctx = _ChildCtx(req["seed"], req["quick"])
+        violations, stats, _corr, n = exhaustive_options(ctx)
+        n += namespace_checks(violations)
+        n += set_checks(ctx, violations)[0]
+        untagged = [v for v in violations if not v.get("finding")]
+        out.update(violations=untagged[:25] + [v for v in violations if v.get("finding")][:5], n_violations=len(violations), n=n, optimize=sys.flags.optimize, debug=__debug__, dev_mode=sys.flags.dev_mode,
+                   thread=threading.current_thread() is not threading.main_thread())
+    if req.get("thread"):
+        t = threading.Thread(target=work)
+        t.start()
+        t.join()
+    else:
+        work()
+    print(CHILD_MARK + json.dumps(out, default=str))
+
+
+def start_interpreters(ctx):
+    return [(label, flags, env, thread, _spawn(flags, env, dict(seed=ctx.seed, quick=ctx.quick, thread=thread)))
+            for label, flags, env, thread in INTERPRETERS]
+
+
+def collect_interpreters(children, violations, mism, quick):
+    info = {}
+    for label, flags, env, thread, p in children:
+        res, err = _collect(p, 600 if quick else 6000)
+        if res is None or "violations" not in res:
+            mism.append(dict(where=f"the battery could not be completed in [{label}]", error=err))
+            continue
+        want_opt = 2 if "-OO" in flags else 1 if ("-O" in flags or env.get("PYTHONOPTIMIZE")) else 0
+        if res["optimize"] != want_opt or res["thread"] != thread:
+            mism.append(dict(where=f"child interpreter [{label}] did not start with the requested settings", got=repr(res)[:300]))
+        info[label] = dict(evaluations=res["n"], violations=len(res["violations"]), optimize=res["optimize"], dev_mode=res["dev_mode"])
+        for v in res["violations"]:
+            v = dict(v, desc=f"[{label}] " + v.get("desc", ""), interpreter=dict(label=label, flags=flags, env=env, thread=thread))
+            violations.append(v)
+    return info
+
+
 def known_witnesses():
     from labrea import Option
     out = []
@@ -375,6 +766,7 @@ def known_witnesses():
 
 
 def run(ctx):
+    children = start_interpreters(ctx)
     violations, stats, corr, n_opt = exhaustive_options(ctx)
     n_ns = namespace_checks(violations)
     n_set, set_cases = set_checks(ctx, violations)
@@ -387,28 +779,37 @@ def run(ctx):
         corr.append(dict(ftable=dict(g.ftable), env=dict(g.env), exprs=exprs,
                          ops=[(m, j, False, False, o) for o in pool[:4] for j in range(3) for m in ("evaluate", "validate", "keys", "explain")]))
     impls, models, mism, cstats = cp.correspondence(ctx, corr, "Cases_C04", shard=12)
+    n_var = variant_correspondence(corr, models, mism)
     got = ctx.coq_eval("Cases_C04_set", cp.REQ + ["Model.Show"], "", [c[0] for c in set_cases], shard=200)
     for (expr, want), g_ in zip(set_cases, got):
         if g_ != want and g_ != "typeerror":
             mism.append(dict(where="Base.set_dotted/mix vs Option.set", coq=expr[:300], impl=want, model=g_))
+    n_local = len(violations)
+    interp = collect_interpreters(children, violations, mism, ctx.quick)
+    ext = stats.get("extended", {})
+    n_ext = ext.get("live-dictionary calls", 0) + ext.get("clone calls", 0) + sum(i["evaluations"] for i in interp.values())
     tagged = {}
-    for v in violations:
+    for v in violations[:n_local]:
         if v.get("finding"):
             tagged[v["finding"]] = tagged.get(v["finding"], 0) + 1
     return {
-        "evaluations": n_opt + n_ns + n_set + cstats["ops"],
+        "evaluations": n_opt + n_ns + n_set + cstats["ops"] + n_ext,
         "distinct_nontrivial": n_opt,
         "rule": "every key of a nested universe (section, prefixes of one another, list indices) x every falsy/truthy/templated value stored "
                 "under it (plus absent, scalar-parent and empty-section dictionaries) x 7 default forms (none, constant, falsy constant, template, "
                 "factory, chained Option, dataset) x 4 domain forms (none, container, predicate, evaluatable) - complete in the thorough tier, "
                 "every other default/domain combination in quick; 10 namespace members (nested, renamed, auto, typed) x 9 dictionaries x 4 methods; "
-                "Option.set for 5 keys x 7 dictionaries x 8 values. Each (key, default, domain, dictionary) combination is distinct and non-trivial.",
+                "Option.set for 5 keys x 7 dictionaries x 8 values. Each (key, default, domain, dictionary) combination is distinct and non-trivial. "
+                "Per combination additionally: one long-lived Option under ONE options dictionary object edited in place (all four methods, dictionaries that "
+                "compare equal although they differ next to one another); the Option after copy.copy / copy.deepcopy / pickle (protocols 0, 2, highest; "
+                "before and after use), also spelled with default_factory= / a bare callable domain. The whole implementation-side battery is repeated in "
+                "child interpreters: python -O, -OO, PYTHONOPTIMIZE=1, -X dev, and in a worker thread.",
         "samples": [dict(expr=repr(("option", KEYS[2], DEFAULTS[3][1], DOMAINS[1][1])), options=repr(place(KEYS[2], 0, {B: 5})), expected="0 (falsy present value wins)")],
-        "traces_validated_against_impl": cstats["ops"] + len(set_cases),
+        "traces_validated_against_impl": cstats["ops"] + len(set_cases) + n_var,
         "correspondence_mismatches": mism[:5],
         "violations": violations,
         "known": known_witnesses(),
-        "distribution": dict(cstats, expected_outcomes=stats, namespace_checks=n_ns, set_checks=n_set, tagged=tagged),
+        "distribution": dict(cstats, expected_outcomes=stats, namespace_checks=n_ns, set_checks=n_set, tagged=tagged, interpreters=interp, copied_live_history_ops_vs_model=n_var),
         "exhaustive": not ctx.quick,
         "assumptions": ["the oracle's lookup/resolver is an independent transcription of the property text (dotted lookup, transitive templating)"],
         "trusted_base": ["confectioner get_dotted_key/resolve/set_dotted_key/mix are modelled and validated by this correspondence run"],
@@ -417,6 +818,19 @@ def run(ctx):
 
 def replay(ctx, payload):
     viol = []
+    if "interpreter" in payload:                                    # found in a child interpreter: replay it there
+        it = payload["interpreter"]
+        inner = {k: v for k, v in payload.items() if k != "interpreter"}
+        res, err = _collect(_spawn(it["flags"], it["env"], dict(replay=inner, thread=it["thread"])), 600)
+        if res is None:
+            return True, dict(note="the child interpreter could not replay the input", error=err)
+        return bool(res["still"]), dict(interpreter=it["label"], detail=res["detail"])
+    if "live_scenario" in payload:                                  # one Option, one dictionary object edited in place
+        diffs = live_replay(cp.load_scn(payload["live_scenario"]))
+        return bool(diffs), dict(differences=diffs[:3])
+    if "clone" in payload:                                          # a copied / unpickled Option vs the original
+        diffs = clone_replay(payload)
+        return bool(diffs), dict(differences=diffs[:4])
     if "scenario_repr" in payload and "position" in payload:      # a long-lived Option object vs fresh ones
         scn = cp.load_scn(payload["scenario_repr"])
         lines = core.run_impl(scn)
